@@ -419,6 +419,41 @@ def locate_call_arg(relpath, scopes, func, call_rx, arg_index=0, in_header=False
     return Located(relpath, 0, 0, "/* argument %d of %s in %s */" % (arg_index, call_rx, func), expr, l0, l1, "")
 
 
+def r_matrix_ops(text, mats):
+    """R17: algebra::matrix / algebra::vector element access.
+       mats: {identifier: (accessor, kind)} with accessor '.' or '->' and kind 'mat' (two indices) or 'vec' (one index).
+       X(i, j) -> X.m_elems[i][j];  X(i) -> X.m_elems[i][0];  this->operator()(i, j) / X.operator()(i, j) likewise."""
+    count = 0
+    text, n = re.subn(r"\bthis\s*->\s*operator\s*\(\s*\)\s*\(", "VERIF_SELF_ELEM(", text); count += n
+    for name, (acc, kind) in mats.items():
+        text, n = re.subn(r"(?<![A-Za-z_0-9.>])" + re.escape(name) + r"\s*\.\s*operator\s*\(\s*\)\s*\(", name + "(", text); count += n
+    names = dict(mats)
+    names["VERIF_SELF_ELEM"] = ("->", "mat")
+    rx = re.compile(r"(?<![A-Za-z_0-9.>])(" + "|".join(re.escape(n) for n in names) + r")\s*\(")
+    pos = 0
+    while True:
+        m = rx.search(text, pos)
+        if not m:
+            break
+        name = m.group(1)
+        op = m.end() - 1
+        cp = match_close(text, op)
+        args = split_args(text[op + 1:cp])
+        acc, kind = names[name]
+        base = "self" if name == "VERIF_SELF_ELEM" else name
+        if len(args) == 2:
+            rep = "%s%sm_elems[%s][%s]" % (base, acc, args[0], args[1])
+        elif len(args) == 1 and kind == "vec":
+            rep = "%s%sm_elems[%s][0]" % (base, acc, args[0])
+        else:
+            pos = m.end()
+            continue
+        text = text[:m.start()] + rep + text[cp + 1:]
+        pos = m.start() + len(rep)
+        count += 1
+    return text, count
+
+
 def r_auto(text):
     """R22: `auto x = e;`, `const auto x = e;`, `const auto & x = e;` -> `__auto_type x = e;` (the declared object
     is a copy; reference-ness is dropped, which is unobservable for the read-only uses in the extracted code)."""
